@@ -17,16 +17,20 @@ CLAIMS = {
  "C08": ("Coq: released amount = pre - min(pre, final) <= pre, 0 when final is larger, for ALL naturals (no bound); summary = last status "
          "information (fold lemma); abort reported with its code. Tie: amounts at 0, 1, pre-1, pre, pre+1, 10^12-1, 2^63, 2^64-1 x currencies x "
          "tokens x receipts; the requests on the wire are compared byte-exactly with the reference encoding of the specified request.", "DESIGN.md section 6, C08"),
- "C09": ("Coq (partial): an Err item is followed on the next poll by dropping the connection; a dropped connection is not the current one. The "
-         "history-level claim is decided by the correspondence + oracle: every public operation x every packet position (handshake included) x {close, "
-         "garbage, NACK, silence, truncated, wrong / case-different / prefix serial}, each followed by further operations: exact per-connection write "
-         "logs with virtual timestamps against the model, plus model-free predicates (no write after drop, every connection starts with registration and "
-         "identity check, nothing on a wrong-serial connection).", "DESIGN.md section 6, C09"),
- "C10": ("Coq: the read-card timeout is t+2 s > 0 without overflow for every t < 256; one poll of any sequence under a deadline ends by the deadline "
-         "(timeout exactly at it) wherever the terminal falls silent; the retry loop's fuel is irrelevant above 3*attempts+2 and the 20-attempt budget fits. "
-         "Tie: paused tokio clock, a stall at every packet position of every exchange of every operation incl. the first and the reconnect handshake, "
-         "read_card_timeout every 5th value + extremes (0..255 in thorough); completion and virtual elapsed time compared to the millisecond with the model; "
-         "oracle: never Hang/Panic, elapsed <= budget bound. Partial: tokio timers, OS connect.", "DESIGN.md section 6, C10"),
+ "C09": ('Coq, FULL at the level of whole histories (ClientLog.v): for every configuration, every history of public calls and every scripted terminal the event log satisfies '
+         'log_safe (nothing is written to a connection after it was dropped, every write goes to a connection opened before, every open uses a new connection) and log_reg (the first bytes '
+         'on any connection are the registration command with the configured password and currency); connect hands out a connection only after registration succeeded on it and the reported '
+         'serial matched (connect_vetted); a normally completed exchange keeps the connection and the next call polls it without connecting. Tie: every public operation x every packet '
+         'position (handshake included) x {close, garbage, NACK, silence, truncated, wrong / case-different / prefix serial} followed by further operations, plus multi-fault sequences with '
+         'faults inside reconnect handshakes (30 / 7500): exact per-connection write logs with virtual timestamps against the extracted model (itself re-evaluated inside Coq on a sample), '
+         "plus model-free predicates on the implementation's log.", "DESIGN.md section 6 C09, section 16.3"),
+ "C10": ('Coq, FULL (ClientTime.v): per poll of the retrying stream, from any state and wherever the terminal falls silent (connect, registration, before the acknowledgement, '
+         'between replies), elapsed time plus the remaining potential (attempts left x (throttle + 2 x timeout), + one timeout inside an exchange) never grows except by one timeout per reply '
+         'item actually received; a single-exchange call ends within 20 x (2 s + 2 x timeout) + n x timeout; EVERY public operation returns within 6 x B60 + Bt((t + 2) s) for every '
+         'configuration; the read-card timeout is t + 2 s > 0 without overflow for every t < 256; fuel irrelevance of the poll function. Tie: paused tokio clock, a stall at every packet '
+         'position of every exchange of every operation incl. first and reconnect handshake, a packet arriving at deadline - 1 / deadline / deadline + 1 at every position, multi-stall '
+         'sequences, read_card_timeout 0..255; completion and virtual elapsed time compared to the millisecond with the model; oracle: never Hang/Panic, elapsed <= budget bound. '
+         'Partial (runtime): tokio timers, OS connect.', "DESIGN.md section 6 C10, section 16.3"),
  "C18": ("Coq theorems on the read-card handler for every accumulator and reply: canonical UID function = its specification; listed application with id "
          "=> Bank; any listed application => Bank or error, never Membership; no application + UID => Membership(canon uid); 0x6C => NoCard. Tie: UID absent / "
          "0..20 bytes, application lists absent/empty/with and without ids, 0-3 intermediate statuses, all 256 abort codes.", "DESIGN.md section 6, C18"),
@@ -38,12 +42,11 @@ CLAIMS = {
          "initialisation, set-terminal-id, system info): the handler answers Err identifying c, with exactly the three documented translations; an abort "
          "ends the loop. Tie: all 256 codes x 11 operation/sub-exchange placements x position behind 0-2 intermediate statuses on the real client.",
          "DESIGN.md section 6, C20"),
- "C12": ("The Coq theorems of C01/C02/C13/C14 are stated for EVERY layout over the attribute grammar (totality and termination of the generated "
-         "decoder, frame inverse, the struct decode function over positional fields and tagged groups in any order, decimal Fixed<k> fields), with a "
-         "kernel-evaluated example on a layout the shipped packets never use. Tie: random struct definitions (<= 8 fields, depth <= 3; 48 well-formed + "
-         "16 deliberately outside per round, 6 rounds in thorough) are compiled with the REAL derive macro; the translator must reproduce the generator's "
-         "tables from the generated Rust; canonical values are encoded by the reference encoder ('the layout the attributes describe'), decoded by the "
-         "generated code and by the model interpreting the same layout at run time; oracle: inverse + identical bytes.", "DESIGN.md section 6, C12"),
+ "C12": ('Coq: the C01 inverse theorem, the C02 totality / termination / allocation theorems and the C13 / C14 theorems all quantify over EVERY layout over the attribute grammar '
+         '(C12_generated_pair_inverse_commands / _plain: every value of the class `canon`), with kernel-evaluated examples on a layout the shipped packets never use. Tie: random struct '
+         'definitions (<= 8 fields, depth <= 3; 48 well-formed + 16 deliberately outside per round, 6 rounds in thorough) compiled with the REAL derive macro; the translator must reproduce '
+         "the generator's tables from the generated Rust; canonical values encoded by the reference encoder ('the layout the attributes describe'), decoded by the generated code and by the "
+         'model interpreting the same layout at run time; the extracted `canon` is run on the well-formed values (all inside the proved class); oracle: inverse + identical bytes.', "DESIGN.md section 6 C12, section 16.3"),
  "C04": ("Coq theorems about the model of io.rs: the writer's APDU header and the reader's interpretation agree for every body length <= 65535 "
          "(reader returns exactly the packet, leaves exactly the rest; the codec's own length parser agrees), k concatenated packets are read back as "
          "those k packets, a stream ending inside a packet never yields a packet, and reading over ANY chunking with Pending wake-ups anywhere equals "
@@ -66,17 +69,19 @@ CLAIMS = {
          "set = specification. Tie: the real WriteFile::into_stream over real files in a scratch directory (subsets of the 21 paths + unrelated files, "
          "sizes around the block size, block sizes 1..32768, repeated / overlapping / past-EOF requests, unknown ids, missing fields). Partial: "
          "read_at and file sizes < 2^32 are assumed.", "DESIGN.md section 6, C11"),
- "C13": ("Coq theorems about the decode loop the derive macro generates, for every field list and every field decoder: any permutation of "
-         "pairwise-distinct tagged groups decodes to the same value (one loop lemma covers declaration order and every permutation), a second "
-         "group for a seen tag is DuplicateTag of that tag, all missing mandatory tags are named (sorted), an unknown tag ends the loop handing "
-         "back itself and everything behind it; the group hypotheses are discharged for a shipped packet. Tie: all permutations up to 5/6 present "
-         "groups (sampled above), a duplicate at every position, every removal subset up to 3, one- and two-byte foreign tags at every group "
-         "boundary, on all shipped types; model vs implementation plus an oracle computed from the layout.", "DESIGN.md section 6, C13"),
- "C01": ("Coq: the <tag><length><data> frame round-trips for every delimiting length style, representable tag and inner codec (general theorem); "
-         "value encodings round-trip over their whole domain (C17 theorems); the lift to every well-formed layout is being completed "
-         "(theorems named *_partial in Properties/C01.v say what is missing). Tie + decision today: canonical values of all 55 regenerated types "
-         "(300 / 5000 per type, APDU bodies at 253..257 bytes) are encoded by an independent reference encoder, decoded by the real codec and by the "
-         "extracted model; oracle: decode(encode v) = (v, no rest) and re-encode = same bytes.", "DESIGN.md section 6, C01"),
+ "C13": ('Coq: theorems about the decode loop the derive macro generates, for every field list and every field decoder (any permutation of pairwise-distinct tagged groups decodes to '
+         'the same value, a second group for a seen tag is DuplicateTag of that tag, all missing mandatory tags are named sorted, an unknown tag ends the loop handing back itself and what '
+         'follows), INSTANTIATED for the decidable class `canon_anyorder`: for every layout and value of the class, every permutation of the tagged groups decodes to that value, also inside '
+         'an APDU with any suffix (canon_anyorder_sound, canon_cmd_anyorder); every shipped layout with tagged fields is inside the class. Tie: all permutations up to 5/6 present groups '
+         '(sampled above), a duplicate at every position, every removal subset up to 3, one- and two-byte foreign tags at every group boundary, on all shipped types; model vs '
+         'implementation plus an oracle computed from the layout.', "DESIGN.md section 6 C13, section 16.3"),
+ "C01": ('Coq, FULL: for EVERY layout (any field list over the attribute grammar) and EVERY value of the decidable class `canon` (CanonClass.v: positional before tagged, '
+         'distinct representable tags, self-delimiting or context-checked fields, Option / Vec / nested structs to any depth) serialising gives exactly the bytes `canon` computes and '
+         'deserialising gives back exactly the value with nothing left, any suffix behind the APDU handed back (canon_cmd_roundtrip, canon_struct_roundtrip, canon_sound); whole value '
+         'families are inside the class (all integers of a width, all BCD numbers of a digit count, all CP437 / hex / UTF-8 text, all date-times 0..9999); every shipped layout is inside it '
+         'with all optionals present and absent (regenerated tables). Tie: canonical values of all 55 regenerated types (300 / 5000 per type, APDU bodies at 253..257) encoded by an '
+         'independent reference encoder, decoded by the real codec and by the extracted model; the extracted `canon` is run on every generated value (all inside the class); a sample is '
+         're-evaluated inside Coq (vm_compute); oracle: decode(encode v) = (v, no rest), re-encode = same bytes.', "DESIGN.md section 6 C01, section 16.3"),
  "C03": ("Coq obligation by computation: all 55 layouts regenerated from /repo equal the hand-written specification layouts (global bitmap table, "
          "TLV tag table, per-packet numbers and role names, control fields) up to what is visible on the wire. Tie: bytes assembled from the "
          "SPECIFICATION layout (read back from Coq) by the reference encoder must decode in the real codec into exactly the named fields and "
@@ -90,21 +95,19 @@ CLAIMS = {
          "computation on the regenerated enums: control fields pairwise distinct, each command's reply enum = the reply set of the specification "
          "table. Tie: every enum x all 65,536 control fields x bodies (empty, valid for each variant, valid for another packet, random), "
          "oracle against the specification's reply sets.", "DESIGN.md section 6, C15"),
- "C02": ("Coq theorems for EVERY layout (not only shipped ones), every byte string, every fuel: the generated decoder never returns Panic, "
-         "never hands back more than it was given, and fuel = nesting depth suffices (no loop without progress); instantiated by computation on "
-         "the regenerated tables for all shipped command decoders, containers and reply parsers; BCD decoder = exact value or error. Tie: "
-         "differential run in debug (overflow checks) AND release builds over all short bodies, every truncation and single-byte "
-         "substitution of corpus + generated packets, structure-aware mutants; model-free oracle: never Panic/Hang, allocation "
-         "measured by a counting allocator <= 64*len+8192.", "DESIGN.md section 6, C02"),
+ "C02": ('Coq theorems for EVERY layout (not only shipped ones), every byte string, every fuel: the generated decoder never returns Panic, never hands back more than it was given, '
+         'fuel = nesting depth suffices (no loop without progress), and what it builds is at most (2 + nesting depth) units (string characters, bytes, Vec elements) per byte CONSUMED '
+         '(dec_sized); instantiated by computation on the regenerated tables for all shipped command decoders, containers and reply parsers (<= 12 units per APDU byte); BCD decoder = exact '
+         'value or error. Tie: differential run in debug (overflow checks) AND release builds over all short bodies, every truncation and single-byte substitution of corpus + generated '
+         'packets, structure-aware mutants; model-free oracle: never Panic/Hang, heap allocation measured by a counting allocator <= 64*len+8192.', "DESIGN.md section 6 C02, section 16.3"),
  "C16": ("Unbounded Coq theorems about the model of zvt_builder::length (round trip with arbitrary trailing data, injectivity, "
          "shortest form with the 128/256 and 255 switch points, truncated prefix is an error, no parser panics); the model is tied "
          "to the code by an exhaustive differential run (every representable length of every style; every 1-2 byte prefix "
          "string, 3-byte in thorough) plus a model-free oracle on the implementation.", "DESIGN.md section 6, C16"),
- "C17": ("Unbounded Coq theorems about the model of the value encodings (LE/BE integers of every width, BCD round trip and exact "
-         "characterisation of the decoder incl. overflow => error, F padding, tags: exactly the representable ones round-trip, "
-         "hex both ways, CP437 both ways with a kernel-checked bijective table); tie: differential run (u8/u16/all 65536 tags and "
-         "all 0-2 byte inputs exhaustively, boundaries and random beyond; release build too in thorough) plus round-trip oracle.",
-         "DESIGN.md section 6, C17"),
+ "C17": ('Unbounded Coq theorems about the model of the value encodings: LE/BE integers of every width, BCD round trip and exact characterisation of the decoder incl. overflow => '
+         'error, F padding, tags (exactly the representable ones round-trip), hex both ways, CP437 both ways with a kernel-checked bijective table, UTF-8 for every list of scalar values '
+         '(utf8_roundtrip), date-time TLV for every calendar date-time of the years 0..9999 (datetime_roundtrip). Tie: differential run (u8 / u16 / all 65536 tags and all 0-2 byte inputs '
+         'exhaustively, 0-3 bytes in thorough, boundaries and random beyond; release build too in thorough) plus round-trip oracle.', "DESIGN.md section 6 C17, section 16.3"),
 }
 claimed = sorted(CLAIMS)
 m = {
